@@ -207,7 +207,11 @@ struct HaWorld : World {
             Bytes nowv; bool present = now != nullptr; if (now) { nowv.assign((char *)now, nsz); free(now); }
             Result r;
             if (!present) r = R_fail("own-key-ok");
-            else if (old && nowv == oldv) { { InSut s; t->remove_by_obj(t, (const char *)kb.p, kb.n); } r = R_fail("own-key-ok"); }
+            else if (old && nowv == oldv) {
+                // refused for lack of space: canonical form "absent". A call that failed because an allocation was refused must leave the key alone.
+                if (sim_fault_fired() == 0) { InSut s; t->remove_by_obj(t, (const char *)kb.p, kb.n); }
+                r = R_fail("own-key-ok");
+            }
             else r = R_fail("own-key-partially-written:" + hexs(nowv, 40));
             sim_fault_suspend(false);
             if (primary) { x.st.add("probe.put_refused_enobufs"); if (v.size() > (size_t)SLOT_DATA) x.st.add("probe.multi_slot_put_refused"); }
